@@ -400,8 +400,60 @@ fn sc_change_boundary(ctx: &mut Ctx) {
     }
 }
 
+/// Collateral return outputs given explicitly, dressed with a data hash / inline datum / script
+/// reference, with coins around the minimum of the bare and of the dressed output.
+fn sc_collateral_return(ctx: &mut Ctx) {
+    let addrs = addresses();
+    let ai = ctx.choose_free(addrs.len().min(4));
+    let d = ctx.choose_free(4);
+    let sr = ctx.choose_free(4);
+    let cpb = *ctx.pick_free(&[4310u64, 1, 250]);
+    let ci = ctx.choose_free(7);
+    let (aname, addr) = &addrs[ai];
+    let dressed0 = make_output(addr, 0, 0, d, sr);
+    let bare0 = make_output(addr, 0, 0, 0, 0);
+    let cost = DataCost::new_coins_per_byte(&bn(cpb));
+    let (full_min, bare_min) = match (guard(|| min_ada_for_output(&dressed0, &cost)), guard(|| min_ada_for_output(&bare0, &cost))) {
+        (Ok(Ok(a)), Ok(Ok(b))) => (u(&a), u(&b)),
+        _ => return,
+    };
+    let coin = match ci {
+        0 => bare_min,
+        1 => (bare_min + full_min) / 2,
+        2 => full_min.saturating_sub(1),
+        3 => full_min,
+        4 => full_min + 1,
+        5 => bare_min.saturating_sub(1),
+        _ => 65_536.max(full_min / 2),
+    };
+    let collateral_coin = coin + 3_000_000;
+    let mut p = Params::mainnet();
+    p.coins_per_byte = cpb;
+    let mut tb = TransactionBuilder::new(&p.config());
+    let mut cb = TxInputsBuilder::new();
+    cb.add_regular_utxo(&TransactionUnspentOutput::new(&crate::builder::op_outpoint(9), &TransactionOutput::new(&enterprise_addr(1), &Value::new(&bn(collateral_coin))))).unwrap();
+    tb.set_collateral(&cb);
+    let ret = with_coin(&dressed0, coin);
+    ctx.observe(&(ai, d, sr, cpb, ci));
+    let what = format!("collateral return to {} datum#{} ref#{} coin {} (bare minimum {}, real minimum {}) cpb {}", aname, d, sr, coin, bare_min, full_min, cpb);
+    ctx.set_sample(|| what.clone());
+    ctx.compared();
+    match guard(|| tb.set_collateral_return_and_total(&ret)) {
+        Err(pn) => ctx.violation(panic_sig(P, "set_collateral_return_and_total", &pn), format!("{} : {}", what, pn.msg)),
+        Ok(Err(_)) => ctx.hit("collateral-return-refused"),
+        Ok(Ok(())) => {
+            ctx.hit("collateral-return-accepted");
+            let need = cpb as u128 * (160 + size_of(&ret) as u128);
+            if (coin as u128) < need {
+                ctx.violation(format!("{}/collateral-return-below-min-ada/{}", P, if d != 0 || sr != 0 { "dressed" } else { "plain" }), format!("accepted with {} < {} = {} x (160 + {}) ; {}", coin, need, cpb, size_of(&ret), what));
+            }
+        }
+    }
+}
+
 pub fn scenario(name: &str, tier: Tier) -> Option<BoxedScenario> {
     Some(match name {
+        "collateral_return" => Box::new(sc_collateral_return),
         "change_boundary" => Box::new(sc_change_boundary),
         "min_ada" => Box::new(sc_min_ada),
         "output_builder" => Box::new(sc_output_builder),
@@ -411,12 +463,12 @@ pub fn scenario(name: &str, tier: Tier) -> Option<BoxedScenario> {
 
 pub fn run(tier: Tier, seed: u64) -> i32 {
     let mut rep = Report::new(P, tier, seed);
-    rep.rule = "function part: 7 address kinds x 32 coins (width classes and neighbours) x 69 asset bundles (names 0..32 bytes) x 4 datum options x 4 script-ref options x 24 coins-per-byte values derived per output to land on/around every CBOR width boundary and the u64 overflow edge; change_boundary: token change with the price per byte derived so that the change output's minimum lands just below 2^16 / 2^32 (3 bundles x 3 change addresses x 3 prices) and the input coin swept in 50-lovelace steps across the boundary x 2 balancing methods; builder part: every output of every transaction produced by the builder exploration; distinct = distinct argument tuples / distinct builder states".into();
+    rep.rule = "function part: 7 address kinds x 32 coins (width classes and neighbours) x 69 asset bundles (names 0..32 bytes) x 4 datum options x 4 script-ref options x 24 coins-per-byte values derived per output to land on/around every CBOR width boundary and the u64 overflow edge; collateral_return: explicit return outputs (4 addresses x 4 datum options x 4 script-ref options x 3 prices x 7 coins around the bare and the real minimum) through set_collateral_return_and_total; change_boundary: token change with the price per byte derived so that the change output's minimum lands just below 2^16 / 2^32 (3 bundles x 3 change addresses x 3 prices) and the input coin swept in 50-lovelace steps across the boundary x 2 balancing methods; builder part: every output of every transaction produced by the builder exploration; distinct = distinct argument tuples / distinct builder states".into();
     rep.assume("raw pass-through setters (set_collateral_return, set_total_collateral) validate nothing by design and are not in the alphabet");
     rep.trusted_base = vec!["harness/src/refcbor.rs for serialized sizes".into(), "min-UTxO rule coins_per_byte x (160 + |output|) (Babbage/Conway ledger)".into()];
-    rep.required_hits = vec!["min-ada-ok", "min-ada-err-on-overflow", "coin-width-grew", "add_output-accepts", "add_output-rejects", "output-builder-ok", "boundary:built", "boundary:balancing-refuses", "boundary:token-change-coin-at-or-above", "boundary:token-change-coin-below"];
+    rep.required_hits = vec!["min-ada-ok", "min-ada-err-on-overflow", "coin-width-grew", "add_output-accepts", "add_output-rejects", "output-builder-ok", "collateral-return-accepted", "collateral-return-refused", "boundary:built", "boundary:balancing-refuses", "boundary:token-change-coin-at-or-above", "boundary:token-change-coin-below"];
     let opts = Opts::new(seed);
-    for name in ["min_ada", "output_builder", "change_boundary"] {
+    for name in ["min_ada", "output_builder", "change_boundary", "collateral_return"] {
         let f = scenario(name, tier).unwrap();
         let st = explore(name, &*f, &opts);
         rep.add(name, "full product", st);
